@@ -40,12 +40,14 @@ type segmentStack struct {
 func (ss *segmentStack) addRef() {
 	ss.m.Lock()
 	ss.refs++
+	verifRef("segmentStack", ss, ss.refs)
 	ss.m.Unlock()
 }
 
 func (ss *segmentStack) decRef() {
 	ss.m.Lock()
 	ss.refs--
+	verifRef("segmentStack", ss, ss.refs)
 	if ss.refs <= 0 {
 		if ss.stats != nil { // Only update stats if snapshot is on collection.
 			atomic.AddUint64(&ss.stats.TotSnapshotInternalClose, 1)
